@@ -114,7 +114,8 @@ def gen_case(rng, idx, tier):
         U = gen.integer_kv(rng)
         nt = "int"
     else:
-        U = gen.kv(rng)
+        deep = tier == "thorough" and rng.random() < 0.3
+        U = gen.kv(rng, pmax=6 if deep else 4, nintmax=7 if deep else 4)
         nt = rng.choice(["frac", "frac", "frac", "float", "npfloat"])
     lits = [rng.randrange(len(BAD_LITERALS)) for _ in range(3)] + [-1 - rng.randrange(len(GOOD_LITERALS)) for _ in range(2)]
     mutated = []
